@@ -52,35 +52,42 @@ func (cache *Cache) evict() {
 	delete(cache.entries, key)
 }
 
+// cacheKey derives the cache key from the message digest, the claimed signers and the signature bytes.
+func cacheKey(digest hotstuff.Hash, signature hotstuff.QuorumSignature) string {
+	var key strings.Builder
+	_, _ = key.Write(digest[:])
+	_, _ = key.Write(hotstuff.ID(signature.Participants().Len()).ToBytes())
+	signature.Participants().ForEach(func(id hotstuff.ID) {
+		_, _ = key.Write(id.ToBytes())
+	})
+	_, _ = key.Write(signature.ToBytes())
+	return key.String()
+}
+
 // Sign signs a message and adds it to the cache for use during verification.
 func (cache *Cache) Sign(message []byte) (sig hotstuff.QuorumSignature, err error) {
 	sig, err = cache.impl.Sign(message)
 	if err != nil {
 		return nil, err
 	}
-	var key strings.Builder
 	hash := sha256.Sum256(message)
-	_, _ = key.Write(hash[:])
-	_, _ = key.Write(sig.ToBytes())
-	cache.insert(key.String())
+	cache.insert(cacheKey(hash, sig))
 	return sig, nil
 }
 
 // Verify verifies the given quorum signature against the message.
 func (cache *Cache) Verify(signature hotstuff.QuorumSignature, message []byte) error {
-	var key strings.Builder
 	hash := sha256.Sum256(message)
-	_, _ = key.Write(hash[:])
-	_, _ = key.Write(signature.ToBytes())
+	key := cacheKey(hash, signature)
 
-	if cache.check(key.String()) {
+	if cache.check(key) {
 		return nil
 	}
 
 	if err := cache.impl.Verify(signature, message); err != nil {
 		return err
 	}
-	cache.insert(key.String())
+	cache.insert(key)
 
 	return nil
 }
@@ -93,22 +100,22 @@ func (cache *Cache) BatchVerify(signature hotstuff.QuorumSignature, batch map[ho
 	hasher := sha256.New()
 	// then hash the messages in sorted order
 	for _, id := range ids {
+		// bind each message to the replica it is claimed for and delimit it
+		_, _ = hasher.Write(id.ToBytes())
+		_, _ = hasher.Write(hotstuff.View(len(batch[id])).ToBytes())
 		_, _ = hasher.Write(batch[id])
 	}
 	copy(hash[:], hasher.Sum(nil))
+	key := cacheKey(hash, signature)
 
-	var key strings.Builder
-	_, _ = key.Write(hash[:])
-	_, _ = key.Write(signature.ToBytes())
-
-	if cache.check(key.String()) {
+	if cache.check(key) {
 		return nil
 	}
 
 	if err := cache.impl.BatchVerify(signature, batch); err != nil {
 		return err
 	}
-	cache.insert(key.String())
+	cache.insert(key)
 	return nil
 }
 
